@@ -145,28 +145,49 @@ def lock(ctx, report, rule, facts, config):
         reach = [x.qname for x in facts.cone([root]).values() if x.qname in writes]
         report.ob(rule, "write-reached/%s" % q, bool(reach), "%s fills the pool slot under the exclusive lock (in %s)" % (q.rsplit("::", 1)[1], reach) if reach else
                   "expected write lock site missing: %s no longer takes the exclusive lock on the pool slot" % q, site=root.loc(), config=config)
-    for q in sorted(set(reads) | want_r):
-        report.ob(rule, "read/%s" % q, q in want_r and q in reads, "shared (non-poisoning) lock around the dispatch" if q in want_r and q in reads else
-                  "unexpected read-lock site %s" % q, site=(reads.get(q) or [None])[0], config=config)
+    # the shared lock is what the dispatching entry points hold while systems run: each of them reaches a read-lock site,
+    # and every read-lock site lies in the call cone of one of them (or of the builder's configuration)
+    r_roots = []
+    for q in sorted(want_r):
+        root = facts.maybe(q)
+        if root is None:
+            report.ob(rule, "read/%s" % q, False, "expected read lock site missing (anchor %s not found)" % q, config=config)
+            continue
+        r_roots.append(root)
+        reach = [x.qname for x in facts.cone([root], stop=lambda b: b.self_head == A.STAGE).values() if x.qname in reads]
+        report.ob(rule, "read/%s" % q, bool(reach), "shared (non-poisoning) lock around the dispatch (in %s)" % reach if reach else
+                  "%s no longer takes the shared lock on the pool slot" % q, site=root.loc(), config=config)
+    r_cone = facts.cone(r_roots)
+    for q in sorted(reads):
+        b = by_q[q]
+        ok = b.key in r_cone or b.key in cfg_cone
+        if not ok:
+            report.ob(rule, "read/%s" % q, False, "unexpected read-lock site %s (outside the dispatching entry points and the builder)" % q, site=reads[q][0], config=config)
 
 
 # ------------------------------------------------------------------ C11
 
 def pool_source(ctx, report, rule, facts, config):
-    prog = ctx.program(facts)
+    from . import semq as Q
     for q, name, adt in ((A.SD + "::dispatch_par", "install", A.SD), (A.AD + "::dispatch", "spawn", A.AD)):
         b = facts.one(q)
         report.touched(b, config)
-        bt = prog.bt(b)
-        cs = [bb for bb, t in b.normal_calls() if Callee(t["func"]).name == name and Callee(t["func"]).crate in ("rayon", "rayon_core")]
-        ok = len(cs) == 1
-        detail = "%d %s call(s)" % (len(cs), name)
-        if ok:
-            leaves = prog.origins(b, bt.call_args(cs[0])[0])
-            leaves = set(l for l in leaves if l[0] not in ("scalar", "int"))
-            ok = leaves == set([("field", adt, "thread_pool")])
-            detail = "%s runs on the pool stored in self.thread_pool" % name if ok else "the pool used by %s comes from %s" % (name, sorted(leaves))
-        report.ob(rule, "pool-of/%s" % q.rsplit("::", 1)[1] + "@" + adt.rsplit("::", 1)[1], ok, detail, site=b.loc(cs[0]) if cs else b.loc(), config=config)
+        keep = [x.key for x in facts.bodies.values() if not x.is_closure and x.self_head == A.STAGE]
+        ev, ends = Q.sem(ctx, facts, b, opaque=keep)
+        pr = []
+        rets = Q.returns(ends)
+        if not rets:
+            pr.append("no way through returns")
+        for e in rets:
+            cs = [x for x in S._crossings(ev, e.path.events, []) if x[0] == name]
+            if len(cs) != 1 or cs[0][3]:
+                pr.append("%d %s call(s) on a way through" % (len(cs), name))
+                continue
+            leaves = Q.origins(ev, cs[0][2])
+            if leaves != set([("field", adt, "thread_pool")]):
+                pr.append("the pool used by %s comes from %s" % (name, sorted(leaves, key=repr)))
+        report.ob(rule, "pool-of/%s" % q.rsplit("::", 1)[1] + "@" + adt.rsplit("::", 1)[1], not pr,
+                  "%s runs on the pool stored in self.thread_pool" % name if not pr else "; ".join(sorted(set(pr))), site=b.loc(), config=config)
     # add_pool stores its argument
     from . import semq as Q
     pool_field = ("field", ("param", 1), "thread_pool", A.DB)
